@@ -447,10 +447,11 @@ _upd('C07', text_add=('Added (contracts/scopes.py, contracts/obfuscator.py): the
                       'table), declared / global / non-local / leaked symbols, global symbols of the children, _reserved_symbols (contains every free '
                       'name used here or below and the resolved name of every outer symbol used here), CatchScope variants, construction and nesting of '
                       'scopes; every Obfuscator marker handler acts once on exactly the current scope, walk() installs exactly the handler table, '
-                      'prewalk_hook = walk then finalize.'),
+                      'prewalk_hook = walk then finalize.  NameGenerator: every yielded name is non-empty and outside the skip set (loops cut), derived '
+                      'generators skip the union, __next__ delegates.'),
      note=('Trusted: spec/scopes.py oracle; C02 for the non-identifier tokens; neighbours of a scope are doubles with arbitrary sets (induction '
            'hypothesis); set images known from below; dict iteration model. Not proved: composition into whole-program capture freedom (bounded); '
-           'NameGenerator distinctness (bounded prefix); CatchScope.declare (finding F15).'))
+           'pairwise distinctness of generated names (model of itertools.product + repetition-free alphabet; bounded prefix); CatchScope.declare (finding F15).'))
 _upd('C06', text_add='Added: Lexer._update_newline_idx under contract (models of PATTERN.split with one group and of the pairwise zip idiom; loop cut): '
                      'line counter and recorded line starts are exact for any number of line terminator sequences in a token.')
 for _cid in ('C08', 'C11', 'C12'):
